@@ -56,9 +56,9 @@ pub fn insert_tok(mode: u8, c: usize, r: usize, spare: bool) {
 }
 
 /// Same with Copy elements (u8), where contents are symbolic.
-pub fn insert_u8(mode: u8, c: usize, r: usize, spare: bool) {
-    let cells = nd::bytes::<16>();
-    let newline = nd::bytes::<4>();
+pub fn insert_u8_b<const B: usize, const K: usize>(mode: u8, c: usize, r: usize, spare: bool) {
+    let cells = nd::bytes::<B>();
+    let newline = nd::bytes::<K>();
     let mut t = owned_u8(c, r, &cells, spare);
     let is_row = mode < 2;
     let dim = if is_row { r } else { c };
@@ -94,6 +94,10 @@ pub fn insert_u8(mode: u8, c: usize, r: usize, spare: bool) {
     };
     assert!(t[(x, y)] == want, "ORACLE: cell after insert is not the specified value");
     end_reached!();
+}
+
+pub fn insert_u8(mode: u8, c: usize, r: usize, spare: bool) {
+    insert_u8_b::<16, 4>(mode, c, r, spare)
 }
 
 /// Inserting into an empty array: any length `len` is accepted and becomes the new width/height;
